@@ -675,9 +675,11 @@ R.extern_module(
     """
 class X25519PrivateKey:
     def exchange(self, peer_public_key) -> bytes: ...
+    def public_key(self) -> Any: ...
 
 class X448PrivateKey:
     def exchange(self, peer_public_key) -> bytes: ...
+    def public_key(self) -> Any: ...
 
 class EcPrivateKey:
     def exchange(self, algorithm, peer_public_key) -> bytes: ...
